@@ -103,4 +103,10 @@ theorem snapshot_is_a_prefix (sts : List Step) : snapshotOf (run init sts) <+: (
     `clone().freeze()` — nothing is split off, taken or cleared (the model's `.snapshot` step leaves the state as it is) -/
 theorem snapshot_is_a_copy : Gen.snapshotShape.length = 4 ∧ ∀ r ∈ Gen.snapshotShape, r.2 = true := by decide
 
+/-- non-vacuity: two writes, snapshots in between and after, reads to the end of file — everything written is captured, and the
+    snapshot taken after the first read showed its two bytes -/
+example : (run init [.write [1, 2], .read 2, .snapshot, .write [3], .close, .snapshot, .read 5, .read 1]).2.1.acc = [1, 2, 3] ∧
+    (run init [.write [1, 2], .read 2, .snapshot, .write [3], .close, .snapshot, .read 5, .read 1]).2.1.done = true ∧
+    snapshotOf (run init [.write [1, 2], .read 2, .snapshot]) = [1, 2] := by decide
+
 end NextestModel.C16
